@@ -404,6 +404,19 @@ def run_project(ctx: core.Ctx, spec: dict[str, Any], stream: str) -> None:
                     ctx.disagree("ignored", {"spec": spec}, sorted(got), sorted(truth))
             else:
                 ctx.count("git:subdir-or-quoted-name")
+        # ---- the gitignore model (Model/GitIgnore.lean) vs git itself: the reference listing, directory patterns included
+        if truth is not None and not (spec.get("git") or {}).get("subdir"):
+            igf = [US.join([(Path(k).parent.as_posix()), v]) for k, v in spec["files"].items()
+                   if k == ".gitignore" or k.endswith("/.gitignore")]
+            mg = core.run_driver([core.line("gitignored", tree, *igf)])[0]
+            model_ign = sorted(x for x in (mg[1].split("\n") if len(mg) > 1 else []) if x)
+            ok_names = all(t.isascii() for t in truth)
+            if ok_names:
+                bad = mg[0] != "ok" or model_ign != sorted(truth)
+                ctx.stream("ignored-model", 1, 1 if bad else 0)
+                ctx.count("gitignore-model:" + ("dir-pattern" if any(ln.strip().endswith("/") for _d, _s, v in [x.partition(US) for x in igf] for ln in v.split("\n")) else "other"))
+                if bad:
+                    ctx.disagree("ignored-model", {"gitignore": igf, "files": sorted(spec["files"])[:40]}, sorted(truth), model_ign)
         # ---- selection / excluded set
         for fmt, rf in (("sdist", facts_s), ("wheel", facts_w)):
             ms, mm, me = model[fmt]
